@@ -205,6 +205,9 @@ def register(reg):
     register_vector_algebra(reg)
     register_directional(reg)
     register_facing(reg)
+    register_frames(reg)
+    register_local_frames(reg)
+    register_orientation_algebra(reg)
 
 
 def _vec_contract(reg, method, params, post, replay, key=None, raises=(), requires=(), setup=None):
@@ -500,9 +503,7 @@ def register_vector_algebra(reg):
         G.use(I.eng, "atan2")
         a, b = co(env.vars["self"]), co(env.vars["other"])
         d = [y - x for x, y in zip(a, b)]
-        h = z3.Real("H!xy")
-        I.eng.assume(z3.And(h >= 0, sq(h) == sq(d[0]) + sq(d[1])))
-        altitude_obligations(check, rz(res), d, h)
+        altitude_obligations(check, rz(res), d, G.hyp_term(I.eng, [d[0], d[1]]))
 
     def replay_altitude(inputs, clause):
         a, b = _vec(inputs, "self"), _vec(inputs, "other")
@@ -535,8 +536,7 @@ def register_vector_algebra(reg):
     def post_spherical(I, env, res, check):
         G.use(I.eng, "atan2")
         a, r = co(env.vars["self"]), co(res)
-        h = z3.Real("H!xy")
-        I.eng.assume(z3.And(h >= 0, sq(h) == sq(a[0]) + sq(a[1])))
+        h = G.hyp_term(I.eng, [a[0], a[1]])
         check("rho_is_the_length", z3.And(r[0] >= 0, sq(r[0]) == norm2(a)))
         check("theta_is_angle_from_plus_y_ccw", r[1] == ATAN2(a[1], a[0]) - HALF_PI)
         check("theta_of_plus_y_is_zero", z3.Implies(z3.And(a[0] == 0, a[1] > 0), r[1] == 0))
@@ -1189,8 +1189,13 @@ def register_facing(reg):
         dx, dy = co(d_vec)[0], co(d_vec)[1]
         G.instance(eng, "A2.atan2_of_rotated_vector", H, dx, dy)
         G.instance(eng, "A2.planar_rotation_fixes_only_the_zero_vector", H, dx, dy)
-        # parent is the planar rotation by yawP: global orientation = yaw(yawP) * yaw(yaw) = yaw(yawP + yaw); its heading is yawP + yaw (mod tau)
-        chk("global_heading_is_the_azimuth_of_the_line_of_sight_plus_H", is_turns((yawP + yaw) - ((ATAN2(dy, dx) - HALF_PI) + H)))
+        e_vec = call_real(I, I.find_method(Vcls, "rotatedBy"), [d_vec, env.vars["heading"]])
+        e = co(e_vec)
+        # parent is the planar rotation by yawP: global orientation = yaw(yawP) * yaw(yaw) = yaw(yawP + yaw); its heading is yawP + yaw (mod tau).
+        # "equal modulo whole turns" is proved with an explicit integer witness (ghost): the turns lost by the two rotations
+        E = (yawP + yaw) - ((ATAN2(dy, dx) - HALF_PI) + H)
+        witnesses = [G.W_YAW_ROTATED(-yawP, e[0], e[1], e[2]) + G.W_ROTATED(H, dx, dy)]
+        chk("global_heading_is_the_azimuth_of_the_line_of_sight_plus_H", z3.Or(*[E == TAU * z3.ToReal(k) for k in witnesses]))
 
     def replay_apparent(inputs, clause):
         H = float(inputs.get("heading", 0.0))
@@ -1213,3 +1218,966 @@ def register_facing(reg):
         return None
 
     reg.add(C.Contract(f"{VEN}:ApparentlyFacing", params=dict(heading=C.Const(None), fromPt=C.Const(None)), setup=setup_apparent, post=post_apparent, inline_all=True, replay=replay_apparent, properties=("C07",)))
+
+
+# =================================================================================================
+# 4. position specifiers and operators composing frames: beyond / offset by / offset along / relative to ...
+
+
+def _simple(reg, target, setup, post, replay, name=None, key=None, requires=()):
+    """contract with programmatic inputs and postcondition on a veneer / object_types / geometry carrier"""
+    mod, fn = target.split(":")
+    short = name or f"{mod.split('.')[-1]}.{fn}" + (key or "")
+
+    def post_(I, env, outcome):
+        chk = lambda clause, goal: I.eng.check(f"{short}#ensures.{clause}", goal)
+        if outcome[0] != "return":
+            return
+        post(I, env, outcome[1], chk)
+
+    def setup_(I, env):
+        WORLD.clear()
+        setup(I, env)
+
+    import inspect
+
+    reg.add(C.Contract(target, params={}, setup=setup_, post=post_, replay=replay, inline_all=True, properties=("C07",)), key=(target + key) if key else None)
+
+
+def make_ego(I, yaw_only=False):
+    o = make_point(I, "ego", "Object", orientation=(OrientationT(yaw_only=True).fresh(I.eng, "ego.orientation", I) if yaw_only else None))
+    if yaw_only:
+        I.eng.input_syms.append(("ego.orientation", OrientationT(yaw_only=True), o.fields["orientation"]))
+    WORLD["ego"] = o
+    return o
+
+
+def _real_oriented_point(pos, euler):
+    from scenic.core.object_types import OrientedPoint
+    from scenic.core.vectors import Orientation, Vector
+
+    return OrientedPoint._with(position=Vector(*pos), parentOrientation=Orientation.fromEuler(*euler))
+
+
+def _real_object(pos, euler, **kw):
+    from scenic.core.object_types import Object
+    from scenic.core.vectors import Orientation, Vector
+
+    return Object._with(position=Vector(*pos), parentOrientation=Orientation.fromEuler(*euler), **kw)
+
+
+def _with_ego(ego, fn):
+    """run fn() with veneer.currentScenario._ego = ego (the real `ego()` reads it)"""
+    import types
+
+    import scenic.syntax.veneer as ven
+
+    saved = ven.currentScenario
+    ven.currentScenario = types.SimpleNamespace(_ego=ego, _objects=[ego] if ego is not None else [], _workspace=None)
+    try:
+        return fn()
+    finally:
+        ven.currentScenario = saved
+
+
+def _f3(inputs, key, default):
+    return [float(c) for c in inputs.get(key, default)]
+
+
+def register_frames(reg):
+    install_veneer_stubs(reg)
+
+    # ---------------------------------------------------------------- beyond X by D|V [from Z]
+    def setup_beyond(I, env):
+        eng = I.eng
+        X = input_vector(eng, "X", I)
+        ok = ["scalar", "vector"][eng.choose(2, "offset kind")]
+        fk = ["ego", "vector", "orientedpoint"][eng.choose(3, "from kind")]
+        offset = input_real(eng, "D") if ok == "scalar" else input_vector(eng, "offset", I)
+        if fk == "ego":
+            Zobj, fromPt = make_ego(I), None
+            Z = Zobj.fields["position"]
+        elif fk == "vector":
+            Z = fromPt = input_vector(eng, "Z", I)
+            Zobj = None
+        else:
+            Zobj = fromPt = make_point(I, "Z", "OrientedPoint")
+            Z = Zobj.fields["position"]
+        x, z = co(X), co(Z)
+        eng.assume(z3.Or(*[a != b for a, b in zip(x, z)]))  # a line of sight needs two distinct points
+        env.vars.update(pos=X, offset=offset, fromPt=fromPt, _ok=ok, _fk=fk, _Z=Z, _Zobj=Zobj)
+        eng.input_syms.append(("case", C.Const(None), f"{ok}/{fk}"))
+
+    def post_beyond(I, env, spec, chk):
+        eng = I.eng
+        G.use(eng, "atan2", "trig", "rot.euler_action")
+        chk("specifies_position_1_and_parentOrientation_3", priorities_are(spec.fields["priorities"], dict(position=1, parentOrientation=3)))
+        chk("has_no_dependencies", len(spec.fields["requiredProperties"]) == 0)
+        vals = spec.fields["value"]
+        X, Z, ok, fk = co(env.vars["pos"]), co(env.vars["_Z"]), env.vars["_ok"], env.vars["_fk"]
+        p2 = co(pd(vals, "position"))
+        d = [a - b for a, b in zip(X, Z)]  # line of sight from Z to X
+        h = G.hyp_term(eng, [d[0], d[1]])
+        alpha = ATAN2(d[1], d[0])
+        theta, phi = alpha - HALF_PI, ATAN2(d[2], h)
+        off = (z3.RealVal(0), rz(env.vars["offset"]), z3.RealVal(0)) if ok == "scalar" else co(env.vars["offset"])
+        # local frame centred at X whose orientation (0,0,0) faces directly away from Z: yaw = azimuth, pitch = elevation of the line of sight
+        want = apply3(EULER(theta, phi, 0), off)
+        for i, n in enumerate("xyz"):
+            chk(f"position_is_the_offset_in_the_line_of_sight_frame_{n}", p2[i] - X[i] == want[i])
+        if ok == "scalar":
+            # geometric meaning: D further along the line of sight, i.e. |d| * (p' - X) = D * d
+            D = off[1]
+            rho = G.hyp_term(eng, [h, d[2]])
+            G.instance(eng, "A2.atan2_polar_form", h, d[1], d[0])
+            G.instance(eng, "A2.atan2_polar_form", rho, d[2], h)
+            G.instance(eng, "A2.sin_cos_quarter_shift", alpha)
+            chk("scalar_offset_is_along_the_line_of_sight_z", rho * (p2[2] - X[2]) == D * d[2])
+            chk("scalar_offset_horizontal_part_has_length_D_cos_elevation_x", h * (p2[0] - X[0]) == (COS(phi) * D) * d[0])
+            chk("scalar_offset_horizontal_part_has_length_D_cos_elevation_y", h * (p2[1] - X[1]) == (COS(phi) * D) * d[1])
+        po = pd(vals, "parentOrientation")
+        if fk == "vector":
+            chk("parentOrientation_is_global_when_Z_is_a_bare_vector", is_orientation(po) and (rot(po) == IDENT))
+        else:
+            chk("parentOrientation_is_the_orientation_of_Z", is_orientation(po) and rot(po).eq(rot(env.vars["_Zobj"].fields["orientation"])))
+
+    def replay_beyond(inputs, clause):
+        import numpy as np
+        from scipy.spatial.transform import Rotation
+
+        import scenic.syntax.veneer as ven
+        from scenic.core.vectors import Orientation, Vector
+
+        ok, fk = inputs.get("case", "scalar/vector").split("/")
+        X = _f3(inputs, "X", [3, 4, 5])
+        Z = _f3(inputs, {"ego": "ego.position", "vector": "Z", "orientedpoint": "Z.position"}[fk], [0, 0, 0])
+        tries = [(X, Z), ([3.0, 4.0, 5.0], [1.0, -1.0, 0.5]), ([-2.0, 1.0, 0.0], [4.0, 3.0, -1.0])]
+        for X, Z in tries:
+            if all(_close(a, b) for a, b in zip(X, Z)):
+                continue
+            off = [0.0, float(inputs.get("D", 2.0)) or 2.0, 0.0] if ok == "scalar" else (_f3(inputs, "offset", [1, 3, 0.5]))
+            for e in ROTATION_CATALOGUE[:6]:
+                arg = (off[1] if ok == "scalar" else Vector(*off))
+                if fk == "ego":
+                    ego = _real_object(Z, e)
+                    spec = _with_ego(ego, lambda: ven.Beyond(Vector(*X), arg))
+                    want_or = ego.orientation
+                elif fk == "vector":
+                    spec = _with_ego(None, lambda: ven.Beyond(Vector(*X), arg, Vector(*Z)))
+                    want_or = Orientation.fromEuler(0, 0, 0)
+                else:
+                    op = _real_oriented_point(Z, e)
+                    spec = _with_ego(None, lambda: ven.Beyond(Vector(*X), arg, op))
+                    want_or = op.orientation
+                val = spec.value
+                d = np.array(X) - np.array(Z)
+                theta, phi = math.atan2(d[1], d[0]) - math.pi / 2, math.atan2(d[2], math.hypot(d[0], d[1]))
+                want = np.array(X) + Rotation.from_euler("ZXY", [theta, phi, 0]).apply(np.array(off))
+                if ok == "scalar":
+                    want = np.array(X) + off[1] * d / np.linalg.norm(d)
+                if not all(_close(a, b) for a, b in zip(val["position"], want)):
+                    return f"beyond {X} by {arg} from {Z}: position {val['position']}, expected {list(want)}"
+                if not val["parentOrientation"].approxEq(want_or):
+                    return f"beyond {X} by {arg} from a {fk} facing {e}: parentOrientation {val['parentOrientation']}, expected {want_or}"
+        return None
+
+    _simple(reg, f"{VEN}:Beyond", setup_beyond, post_beyond, replay_beyond)
+
+    # ---------------------------------------------------------------- offset by V / offset along H by V
+    def setup_offset_by(I, env):
+        make_ego(I)
+        env.vars.update(offset=input_vector(I.eng, "offset", I))
+
+    def post_offset_by(I, env, spec, chk):
+        ego = WORLD["ego"]
+        chk("specifies_position_1_and_parentOrientation_3", priorities_are(spec.fields["priorities"], dict(position=1, parentOrientation=3)))
+        vals = spec.fields["value"]
+        P, R = co(ego.fields["position"]), rot(ego.fields["orientation"])
+        chk("position_is_the_offset_in_the_local_frame_of_ego", eq3(co(pd(vals, "position")), [a + b for a, b in zip(P, apply3(R, co(env.vars["offset"])))]))
+        po = pd(vals, "parentOrientation")
+        chk("parentOrientation_is_the_orientation_of_ego", is_orientation(po) and rot(po).eq(R))
+
+    def replay_offset_by(inputs, clause):
+        import numpy as np
+
+        import scenic.syntax.veneer as ven
+        from scenic.core.vectors import Vector
+
+        P, off = _f3(inputs, "ego.position", [1, 2, 3]), _f3(inputs, "offset", [1, 2, 3])
+        for off in (off, [1.0, 2.0, 3.0]):
+            for e in ROTATION_CATALOGUE:
+                ego = _real_object(P, e)
+                val = _with_ego(ego, lambda: ven.OffsetBy(Vector(*off))).value
+                want = np.array(P) + ego.orientation.getRotation().apply(np.array(off))
+                if not all(_close(a, b) for a, b in zip(val["position"], want)):
+                    return f"ego at {P} facing {e}: `offset by {off}` gives position {val['position']}, expected {list(want)}"
+                if not val["parentOrientation"].approxEq(ego.orientation):
+                    return f"ego facing {e}: `offset by {off}` gives parentOrientation {val['parentOrientation']}"
+        return None
+
+    _simple(reg, f"{VEN}:OffsetBy", setup_offset_by, post_offset_by, replay_offset_by)
+
+    def direction_input(I, env):
+        eng = I.eng
+        dk = ["heading", "orientation"][eng.choose(2, "direction kind")]
+        if dk == "heading":
+            h = input_real(eng, "direction")
+            return h, EULER(rz(h), 0, 0), dk
+        t = OrientationT()
+        o = t.fresh(eng, "direction", I)
+        eng.input_syms.append(("direction", t, o))
+        return o, rot(o), dk
+
+    def setup_offset_along_spec(I, env):
+        make_ego(I)
+        d, R, dk = direction_input(I, env)
+        env.vars.update(direction=d, offset=input_vector(I.eng, "offset", I), _R=R, _dk=dk)
+        I.eng.input_syms.append(("case", C.Const(None), dk))
+
+    def post_offset_along_spec(I, env, spec, chk):
+        ego = WORLD["ego"]
+        chk("specifies_position_1_and_parentOrientation_3", priorities_are(spec.fields["priorities"], dict(position=1, parentOrientation=3)))
+        vals = spec.fields["value"]
+        P = co(ego.fields["position"])
+        chk("position_is_the_offset_in_the_frame_centred_at_ego_oriented_along_the_direction", eq3(co(pd(vals, "position")), [a + b for a, b in zip(P, apply3(env.vars["_R"], co(env.vars["offset"])))]))
+        po = pd(vals, "parentOrientation")
+        chk("parentOrientation_is_the_orientation_of_ego", is_orientation(po) and rot(po).eq(rot(ego.fields["orientation"])))
+
+    def replay_offset_along(spec_form):
+        def replay(inputs, clause):
+            import numpy as np
+
+            import scenic.syntax.veneer as ven
+            from scenic.core.vectors import Orientation, Vector
+
+            dk = inputs.get("case", "heading")
+            P, off = _f3(inputs, "ego.position" if spec_form else "X", [1, 2, 3]), _f3(inputs, "offset" if spec_form else "Y", [1, 2, 3])
+            dirs = [float(inputs.get("direction", 0.7)), 0.7, -2.0] if dk == "heading" else [Orientation.fromEuler(*e) for e in ROTATION_CATALOGUE]
+            for dr in dirs:
+                R = Orientation.fromEuler(dr, 0, 0) if dk == "heading" else dr
+                want = np.array(P) + R.getRotation().apply(np.array(off))
+                if spec_form:
+                    ego = _real_object(P, (0.3, 0.2, 0.1))
+                    val = _with_ego(ego, lambda: ven.OffsetAlongSpec(dr, Vector(*off))).value
+                    got = val["position"]
+                    if not val["parentOrientation"].approxEq(ego.orientation):
+                        return f"`offset along {dr} by {off}`: parentOrientation {val['parentOrientation']} is not ego's"
+                else:
+                    got = ven.OffsetAlong(Vector(*P), dr, Vector(*off))
+                if not all(_close(a, b) for a, b in zip(got, want)):
+                    return f"{P} offset along {dr} by {off} = {got}, expected {list(want)}"
+            return None
+
+        return replay
+
+    _simple(reg, f"{VEN}:OffsetAlongSpec", setup_offset_along_spec, post_offset_along_spec, replay_offset_along(True))
+
+    def setup_offset_along(I, env):
+        d, R, dk = direction_input(I, env)
+        env.vars.update(X=input_vector(I.eng, "X", I), H=d, Y=input_vector(I.eng, "Y", I), _R=R)
+        I.eng.input_syms.append(("case", C.Const(None), dk))
+
+    def post_offset_along(I, env, res, chk):
+        chk("is_X_plus_Y_expressed_in_the_frame_of_the_direction", is_vector(res) and eq3(co(res), [a + b for a, b in zip(co(env.vars["X"]), apply3(env.vars["_R"], co(env.vars["Y"])))]))
+
+    _simple(reg, f"{VEN}:OffsetAlong", setup_offset_along, post_offset_along, replay_offset_along(False))
+
+    # ---------------------------------------------------------------- X relative to Y
+    REL_CASES = ["vector/op", "op/vector", "heading/op", "op/heading", "orientation/orientation", "heading/heading", "vector/vector", "orientation/op", "op/orientation"]
+
+    def setup_relative(I, env):
+        eng = I.eng
+        case = REL_CASES[eng.choose(len(REL_CASES), "forms")]
+        kx, ky = case.split("/")
+
+        def mk(kind, nm):
+            if kind == "vector":
+                return input_vector(eng, nm, I)
+            if kind == "heading":
+                return input_real(eng, nm)
+            if kind == "orientation":
+                t = OrientationT()
+                o = t.fresh(eng, nm, I)
+                eng.input_syms.append((nm, t, o))
+                return o
+            o = make_point(I, nm, "OrientedPoint")
+            hd = eng.fresh_real(nm + ".heading")
+            o.fields["heading"] = hd
+            eng.input_syms.append((nm + ".heading", C.Real(), hd))
+            return o
+
+        env.vars.update(X=mk(kx, "X"), Y=mk(ky, "Y"), _case=case)
+        eng.input_syms.append(("case", C.Const(None), case))
+
+    def post_relative(I, env, res, chk):
+        case, X, Y = env.vars["_case"], env.vars["X"], env.vars["Y"]
+        kx, ky = case.split("/")
+        if "op" in (kx, ky):
+            op, other, ko = (X, Y, ky) if kx == "op" else (Y, X, kx)
+            if ko == "vector":
+                chk("vector_relative_to_oriented_point_is_an_oriented_point", class_name(res) == "OrientedPoint")
+                if class_name(res) == "OrientedPoint":
+                    P, R = co(op.fields["position"]), rot(op.fields["orientation"])
+                    chk("its_position_is_the_vector_in_the_local_frame_of_the_point", eq3(co(res.fields["position"]), [a + b for a, b in zip(P, apply3(R, co(other)))]))
+                    chk("it_inherits_the_orientation_of_the_point", rot(res.fields["orientation"]).eq(R))
+            elif ko == "heading":
+                chk("heading_relative_to_oriented_point_adds_the_headings", rz(res) == rz(op.fields["heading"]) + rz(other))
+            else:
+                want = MUL(rot(Y.fields["orientation"]) if ky == "op" else rot(Y), rot(X.fields["orientation"]) if kx == "op" else rot(X))
+                chk("orientation_X_is_applied_in_the_frame_of_Y", is_orientation(res) and rot(res) == want)
+        elif case == "orientation/orientation":
+            chk("orientation_X_is_applied_in_the_frame_of_Y", is_orientation(res) and rot(res) == MUL(rot(Y), rot(X)))
+        elif case == "heading/heading":
+            # "-5 deg relative to 90 deg is simply 85 degrees": the sum, as a heading or as the planar orientation with that yaw
+            G.use(I.eng, "rot.yaw")
+            G.instance(I.eng, "L-rot.yaw_compose", rz(Y), rz(X))
+            chk("headings_add", (rot(res) == EULER(rz(X) + rz(Y), 0, 0)) if is_orientation(res) else (rz(res) == rz(X) + rz(Y)))
+        else:
+            chk("vectors_add", is_vector(res) and eq3(co(res), [a + b for a, b in zip(co(X), co(Y))]))
+
+    def replay_relative(inputs, clause):
+        import numpy as np
+
+        import scenic.syntax.veneer as ven
+        from scenic.core.vectors import Orientation, Vector
+
+        case = inputs.get("case", "vector/op")
+        kx, ky = case.split("/")
+        for e1 in ROTATION_CATALOGUE[:6]:
+            for e2 in ROTATION_CATALOGUE[1:4]:
+
+                def mk(kind, nm, e):
+                    if kind == "vector":
+                        return Vector(*_f3(inputs, nm, [1, 2, 3]))
+                    if kind == "heading":
+                        return float(inputs.get(nm, 0.4))
+                    if kind == "orientation":
+                        return Orientation.fromEuler(*e)
+                    return _real_oriented_point(_f3(inputs, nm + ".position", [4, 5, 6]), e)
+
+                X, Y = mk(kx, "X", e1), mk(ky, "Y", e2)
+                res = ven.RelativeTo(X, Y)
+                rotn = lambda v: (v.orientation if hasattr(v, "position") else v).getRotation()
+                if "op" in (kx, ky) and "vector" in (kx, ky):
+                    op, v = (X, Y) if kx == "op" else (Y, X)
+                    want = np.array(list(op.position)) + op.orientation.getRotation().apply(np.array(list(v)))
+                    if not all(_close(a, b) for a, b in zip(res.position, want)) or not res.orientation.approxEq(op.orientation):
+                        return f"({v}) relative to an oriented point at {op.position} facing {op.orientation}: got position {res.position}, orientation {res.orientation}; expected {list(want)}"
+                elif "op" in (kx, ky) and "heading" in (kx, ky):
+                    op, h = (X, Y) if kx == "op" else (Y, X)
+                    if not _close(res, op.heading + h):
+                        return f"{h} relative to an oriented point with heading {op.heading} = {res}"
+                elif kx in ("orientation", "op") and ky in ("orientation", "op"):
+                    want = Orientation(rotn(Y) * rotn(X))
+                    if not res.approxEq(want):
+                        return f"{X} relative to {Y} = {res}, expected {want}"
+                elif case == "heading/heading":
+                    if not (res.approxEq(Orientation.fromEuler(X + Y, 0, 0)) if isinstance(res, Orientation) else _close(res, X + Y)):
+                        return f"{X} relative to {Y} = {res}"
+                else:
+                    if not all(_close(a, b + c) for a, b, c in zip(res, X, Y)):
+                        return f"{X} relative to {Y} = {res}"
+        return None
+
+    _simple(reg, f"{VEN}:RelativeTo", setup_relative, post_relative, replay_relative)
+
+    # ---------------------------------------------------------------- scalar operators
+    def half_open_turn(eng, v):
+        eng.assume(z3.And(-PI < rz(v), rz(v) <= PI))
+
+    def setup_rel_heading(I, env):
+        eng = I.eng
+        G.use(eng, "rot.yaw")
+        hx = input_real(eng, "X")
+        half_open_turn(eng, hx)
+        if eng.choose(2, "from?") == 0:
+            hy = input_real(eng, "Y")
+            half_open_turn(eng, hy)
+            env.vars.update(X=hx, Y=hy, _hy=hy)
+        else:
+            ego = make_ego(I, yaw_only=True)
+            hy = ego.fields["orientation"].yaw_sym
+            half_open_turn(eng, hy)
+            env.vars.update(X=hx, Y=None, _hy=hy)
+
+    def post_rel_heading(I, env, res, chk):
+        r = rz(res)
+        chk("in_range", z3.And(-PI <= r, r <= PI))
+        chk("is_the_difference_of_the_headings_modulo_a_turn", is_turns(r - (rz(env.vars["X"]) - rz(env.vars["_hy"]))))
+
+    def replay_rel_heading(inputs, clause):
+        import scenic.syntax.veneer as ven
+
+        hx = float(inputs.get("X", 1.0))
+        eo = inputs.get("ego.orientation")
+        hy = float(inputs["Y"]) if "Y" in inputs else float(eo["yaw"]) if isinstance(eo, dict) else 0.5
+        for hx, hy in ((hx, hy), (3.0, -3.0), (-2.5, 2.0)):
+            if "Y" in inputs:
+                r = ven.RelativeHeading(hx, hy)
+            else:
+                r = _with_ego(_real_object([0, 0, 0], (hy, 0, 0)), lambda: ven.RelativeHeading(hx))
+            if not (-math.pi <= r <= math.pi) or not _angle_close(r, hx - hy):
+                return f"relative heading of {hx} from {hy} = {r}"
+        return None
+
+    _simple(reg, f"{VEN}:RelativeHeading", setup_rel_heading, post_rel_heading, replay_rel_heading)
+
+    def setup_app_heading(I, env):
+        eng = I.eng
+        X = make_point(I, "X", "OrientedPoint")
+        hd = input_real(eng, "X.heading")
+        X.fields["heading"] = hd
+        if eng.choose(2, "from?") == 0:
+            Y = input_vector(eng, "Y", I)
+            env.vars.update(X=X, Y=Y, _Y=Y)
+        else:
+            ego = make_ego(I)
+            env.vars.update(X=X, Y=None, _Y=ego.fields["position"])
+
+    def post_app_heading(I, env, res, chk):
+        G.use(I.eng, "atan2")
+        r, X = rz(res), env.vars["X"]
+        P, Yv = co(X.fields["position"]), co(env.vars["_Y"])
+        az = ATAN2(P[1] - Yv[1], P[0] - Yv[0]) - HALF_PI  # azimuth of the line of sight from Y to X
+        chk("in_range", z3.And(-PI <= r, r <= PI))
+        chk("is_the_heading_relative_to_the_line_of_sight", is_turns(r - (rz(X.fields["heading"]) - az)))
+
+    def replay_app_heading(inputs, clause):
+        import scenic.syntax.veneer as ven
+        from scenic.core.vectors import Vector
+
+        P, Yv = _f3(inputs, "X.position", [0, 10, 0]), _f3(inputs, "Y", inputs.get("ego.position", [0, 0, 0]))
+        h = float(inputs.get("X.heading", 0.3))
+        for P, Yv, h in ((P, Yv, h), ([0.0, 10.0, 0.0], [3.0, 1.0, 0.0], 0.3), ([-4.0, -1.0, 2.0], [3.0, 1.0, 0.0], 2.9)):
+            op = _real_oriented_point(P, (h, 0, 0))
+            r = ven.ApparentHeading(op, Vector(*Yv))
+            want = h - (math.atan2(P[1] - Yv[1], P[0] - Yv[0]) - math.pi / 2)
+            if not (-math.pi <= r <= math.pi) or not _angle_close(r, want):
+                return f"apparent heading of an oriented point at {P} with heading {h} from {Yv} = {r}, expected {want} (mod tau)"
+        return None
+
+    _simple(reg, f"{VEN}:ApparentHeading", setup_app_heading, post_app_heading, replay_app_heading)
+
+    def two_points(names=("X", "Y"), second_optional=True):
+        def setup(I, env):
+            eng = I.eng
+            a = input_vector(eng, names[0], I)
+            if second_optional and eng.choose(2, "second?") == 1:
+                ego = make_ego(I)
+                env.vars.update({names[0]: a, names[1]: None, "_a": a, "_b": ego.fields["position"]})
+            else:
+                b = input_vector(eng, names[1], I)
+                env.vars.update({names[0]: a, names[1]: b, "_a": a, "_b": b})
+
+        return setup
+
+    def post_distance(I, env, res, chk):
+        a, b = co(env.vars["_a"]), co(env.vars["_b"])
+        chk("euclidean_distance", z3.And(rz(res) >= 0, sq(rz(res)) == norm2([x - y for x, y in zip(a, b)])))
+
+    def replay_two(fname, oracle, angle=False, ego_first=False):
+        def replay(inputs, clause):
+            import scenic.syntax.veneer as ven
+            from scenic.core.vectors import Vector
+
+            a, b = _f3(inputs, "X", [1, 2, 3]), _f3(inputs, "Y", inputs.get("ego.position", [4, 6, 8]))
+            for a, b in ((a, b), ([1.0, 2.0, 3.0], [-2.0, 6.0, 4.0])):
+                if "Y" in inputs or fname in ("AngleTo", "AltitudeTo"):
+                    if fname in ("AngleTo", "AltitudeTo"):
+                        r = _with_ego(_real_object(b, (0.3, 0, 0)), lambda: getattr(ven, fname)(Vector(*a)))
+                        want = oracle(b, a)
+                    else:
+                        r = getattr(ven, fname)(Vector(*a), Vector(*b))
+                        want = oracle(a, b)
+                else:
+                    r = _with_ego(_real_object(b, (0.3, 0, 0)), lambda: getattr(ven, fname)(Vector(*a)))
+                    want = oracle(a, b)
+                if not (_angle_close(r, want) if angle else _close(r, want)):
+                    return f"{fname}({a}, {b}) = {r}, expected {want}"
+            return None
+
+        return replay
+
+    _simple(reg, f"{VEN}:DistanceFrom", two_points(), post_distance, replay_two("DistanceFrom", lambda a, b: math.dist(a, b)))
+
+    def az_f(a, b):
+        return math.atan2(b[1] - a[1], b[0] - a[0]) - math.pi / 2
+
+    def alt_f(a, b):
+        return math.atan2(b[2] - a[2], math.hypot(b[0] - a[0], b[1] - a[1]))
+
+    def post_angle_from(I, env, res, chk):
+        G.use(I.eng, "atan2")
+        a, b = co(env.vars["_a"]), co(env.vars["_b"])
+        azimuth_checks(chk, rz(res), [y - x for x, y in zip(a, b)])
+
+    def setup_angle_from(I, env):
+        eng = I.eng
+        a, b = input_vector(eng, "X", I), input_vector(eng, "Y", I)
+        which = eng.choose(3, "given")
+        ego = make_ego(I) if which else None
+        if which == 0:
+            env.vars.update(X=a, Y=b, _a=a, _b=b)
+        elif which == 1:
+            env.vars.update(X=None, Y=b, _a=ego.fields["position"], _b=b)
+        else:
+            env.vars.update(X=a, Y=None, _a=a, _b=ego.fields["position"])
+
+    def replay_from(fname, oracle):
+        def replay(inputs, clause):
+            import scenic.syntax.veneer as ven
+            from scenic.core.vectors import Vector
+
+            for a, b in ((_f3(inputs, "X", [1, 2, 3]), _f3(inputs, "Y", [4, 6, 8])), ([1.0, 2.0, 3.0], [-2.0, 6.0, 4.0]), ([0.0, 0.0, 0.0], [-1.0, 0.0, 1.0])):
+                if _close(a[0], b[0]) and _close(a[1], b[1]):
+                    continue
+                r = getattr(ven, fname)(Vector(*a), Vector(*b))
+                if not _angle_close(r, oracle(a, b)):
+                    return f"{fname}({a}, {b}) = {r}, expected {oracle(a, b)}"
+                r2 = _with_ego(_real_object(a, (0.3, 0, 0)), lambda: getattr(ven, fname)(None, Vector(*b)))
+                if not _angle_close(r2, oracle(a, b)):
+                    return f"{fname}(ego at {a}, {b}) = {r2}, expected {oracle(a, b)}"
+            return None
+
+        return replay
+
+    _simple(reg, f"{VEN}:AngleFrom", setup_angle_from, post_angle_from, replay_from("AngleFrom", az_f))
+
+    def setup_angle_to(I, env):
+        ego = make_ego(I)
+        b = input_vector(I.eng, "X", I)
+        env.vars.update(X=b, _a=ego.fields["position"], _b=b)
+
+    _simple(reg, f"{VEN}:AngleTo", setup_angle_to, post_angle_from, replay_two("AngleTo", az_f, angle=True))
+
+    def post_altitude_from(I, env, res, chk):
+        G.use(I.eng, "atan2")
+        a, b = co(env.vars["_a"]), co(env.vars["_b"])
+        d = [y - x for x, y in zip(a, b)]
+        altitude_checks(chk, rz(res), d, G.hyp_term(I.eng, [d[0], d[1]]))
+
+    _simple(reg, f"{VEN}:AltitudeFrom", setup_angle_from, post_altitude_from, replay_from("AltitudeFrom", alt_f))
+    _simple(reg, f"{VEN}:AltitudeTo", setup_angle_to, post_altitude_from, replay_two("AltitudeTo", alt_f, angle=True))
+
+
+def azimuth_checks(check, r, d, prefix=""):
+    """r = azimuth of the direction d (angle from +Y, counter-clockwise positive, normalised to [-pi, pi])"""
+    dx, dy = d[0], d[1]
+    check(prefix + "in_range", z3.And(-PI <= r, r <= PI))
+    check(prefix + "is_angle_from_plus_y_ccw", is_turns(r - (ATAN2(dy, dx) - HALF_PI)))
+    check(prefix + "plus_y_is_zero", z3.Implies(z3.And(dx == 0, dy > 0), r == 0))
+    check(prefix + "minus_x_is_plus_quarter_turn", z3.Implies(z3.And(dx < 0, dy == 0), r == HALF_PI))
+    check(prefix + "plus_x_is_minus_quarter_turn", z3.Implies(z3.And(dx > 0, dy == 0), r == -HALF_PI))
+    check(prefix + "minus_y_is_half_turn", z3.Implies(z3.And(dx == 0, dy < 0), z3.Or(r == PI, r == -PI)))
+    check(prefix + "left_half_plane_is_positive", z3.Implies(dx < 0, z3.And(r > 0, r < PI)))
+
+
+def altitude_checks(check, r, d, hyp, prefix=""):
+    check(prefix + "in_range", z3.And(-HALF_PI <= r, r <= HALF_PI))
+    check(prefix + "is_elevation_above_the_xy_plane", r == ATAN2(d[2], hyp))
+    check(prefix + "sign_follows_dz", z3.And(z3.Implies(d[2] > 0, r > 0), z3.Implies(d[2] < 0, r < 0), z3.Implies(z3.And(d[2] == 0, z3.Or(d[0] != 0, d[1] != 0)), r == 0)))
+    check(prefix + "straight_up_is_quarter_turn", z3.Implies(z3.And(d[0] == 0, d[1] == 0, d[2] > 0), r == HALF_PI))
+
+
+# =================================================================================================
+# 5. local frames of oriented points and objects; planar angle helpers; Orientation algebra
+
+SIDES = {
+    "left": (-1, 0, 0), "right": (1, 0, 0), "front": (0, 1, 0), "back": (0, -1, 0), "top": (0, 0, 1), "bottom": (0, 0, -1),
+    "frontLeft": (-1, 1, 0), "frontRight": (1, 1, 0), "backLeft": (-1, -1, 0), "backRight": (1, -1, 0),
+    "topFrontLeft": (-1, 1, 1), "topFrontRight": (1, 1, 1), "topBackLeft": (-1, -1, 1), "topBackRight": (1, -1, 1),
+    "bottomFrontLeft": (-1, 1, -1), "bottomFrontRight": (1, 1, -1), "bottomBackLeft": (-1, -1, -1), "bottomBackRight": (1, -1, -1),
+}  # fmt: skip
+
+
+def register_local_frames(reg):
+    install_veneer_stubs(reg)
+
+    def half_dims(o):
+        return tuple(rz(o.fields[d]) / 2 for d in ("width", "length", "height"))
+
+    def obj_setup(I, env):
+        env.vars.update(self=make_point(I, "self", "Object"))
+
+    def real_obj(inputs, e):
+        dims = {d: abs(float(inputs.get(f"self.{d}", 2.0))) or 1.0 for d in ("width", "length", "height")}
+        return _real_object(_f3(inputs, "self.position", [1, 2, 3]), e, **dims), dims
+
+    # ---------------------------------------------------------------- front / back / left / ... of Object
+    def make_side(prop, signs):
+        def post(I, env, res, chk):
+            o = env.vars["self"]
+            P, R, hd = co(o.fields["position"]), rot(o.fields["orientation"]), half_dims(o)
+            chk("is_an_oriented_point", class_name(res) == "OrientedPoint")
+            if class_name(res) != "OrientedPoint":
+                return
+            off = [s * h for s, h in zip(signs, hd)]
+            chk("is_the_midpoint_of_that_side_edge_or_corner_of_the_bounding_box", eq3(co(res.fields["position"]), [a + b for a, b in zip(P, apply3(R, off))]))
+            chk("inherits_the_orientation_of_the_object", rot(res.fields["orientation"]).eq(R))
+
+        def replay(inputs, clause):
+            import numpy as np
+
+            for e in ROTATION_CATALOGUE:
+                o, dims = real_obj(inputs, e)
+                r = getattr(o, prop)
+                off = np.array([s * dims[d] / 2 for s, d in zip(signs, ("width", "length", "height"))])
+                want = np.array(list(o.position)) + o.orientation.getRotation().apply(off)
+                if not all(_close(a, b) for a, b in zip(r.position, want)) or not r.orientation.approxEq(o.orientation):
+                    return f"{prop} of an object at {o.position} facing {e} with dimensions {dims}: position {r.position} orientation {r.orientation}, expected position {list(want)} and the object's orientation"
+            return None
+
+        _simple(reg, f"{OT}:Object.{prop}", obj_setup, post, replay)
+
+    for prop, signs in SIDES.items():
+        make_side(prop, signs)
+
+    # ---------------------------------------------------------------- corners
+    def post_corners(I, env, res, chk):
+        import itertools
+
+        o = env.vars["self"]
+        P, R, hd = co(o.fields["position"]), rot(o.fields["orientation"]), half_dims(o)
+        items = list(I.iterate(res))
+        chk("eight_corners", len(items) == 8 and all(is_vector(c) for c in items))
+        for signs in itertools.product((1, -1), repeat=3):
+            want = [a + b for a, b in zip(P, apply3(R, [s * h for s, h in zip(signs, hd)]))]
+            nm = "".join("p" if s > 0 else "m" for s in signs)
+            chk(f"corner_{nm}_of_the_bounding_box_is_listed", z3.Or(*[eq3(co(c), want) for c in items if is_vector(c)]))
+
+    def replay_corners(inputs, clause):
+        import itertools
+
+        import numpy as np
+
+        for e in ROTATION_CATALOGUE:
+            o, dims = real_obj(inputs, e)
+            cs = [np.array(list(c)) for c in o.corners]
+            if len(cs) != 8:
+                return f"{len(cs)} corners"
+            for signs in itertools.product((1, -1), repeat=3):
+                off = np.array([s * dims[d] / 2 for s, d in zip(signs, ("width", "length", "height"))])
+                want = np.array(list(o.position)) + o.orientation.getRotation().apply(off)
+                if not any(np.allclose(c, want, atol=1e-6) for c in cs):
+                    return f"object at {o.position} facing {e} with dimensions {dims}: bounding-box corner {list(want)} is not among corners {[list(c) for c in cs]}"
+        return None
+
+    _simple(reg, f"{OT}:Object.corners", obj_setup, post_corners, replay_corners)
+
+    # ---------------------------------------------------------------- OrientedPoint.relativePosition / relativize / distancePast
+    def op_setup(with_heading=False):
+        def setup(I, env):
+            o = make_point(I, "self", "OrientedPoint")
+            if with_heading:
+                o.fields["heading"] = input_real(I.eng, "self.heading")
+            env.vars.update(self=o, vec=input_vector(I.eng, "vec", I))
+
+        return setup
+
+    def post_relpos(I, env, res, chk):
+        o = env.vars["self"]
+        chk("is_the_vector_expressed_in_the_local_frame", is_vector(res) and eq3(co(res), [a + b for a, b in zip(co(o.fields["position"]), apply3(rot(o.fields["orientation"]), co(env.vars["vec"])))]))
+
+    def post_relativize(I, env, res, chk):
+        o = env.vars["self"]
+        chk("is_an_oriented_point", class_name(res) == "OrientedPoint")
+        if class_name(res) == "OrientedPoint":
+            chk("at_the_vector_expressed_in_the_local_frame", eq3(co(res.fields["position"]), [a + b for a, b in zip(co(o.fields["position"]), apply3(rot(o.fields["orientation"]), co(env.vars["vec"])))]))
+            chk("inherits_the_orientation", rot(res.fields["orientation"]).eq(rot(o.fields["orientation"])))
+
+    def replay_rel(method):
+        def replay(inputs, clause):
+            import numpy as np
+            from scenic.core.vectors import Vector
+
+            v = _f3(inputs, "vec", [1, 2, 3])
+            for v in (v, [1.0, 2.0, 3.0]):
+                for e in ROTATION_CATALOGUE:
+                    op = _real_oriented_point(_f3(inputs, "self.position", [4, 5, 6]), e)
+                    r = getattr(op, method)(Vector(*v))
+                    want = np.array(list(op.position)) + op.orientation.getRotation().apply(np.array(v))
+                    got = r if method == "relativePosition" else r.position
+                    if not all(_close(a, b) for a, b in zip(got, want)):
+                        return f"oriented point at {op.position} facing {e}: {method}({v}) = {got}, expected {list(want)}"
+                    if method == "relativize" and not r.orientation.approxEq(op.orientation):
+                        return f"oriented point facing {e}: relativize({v}) has orientation {r.orientation}"
+            return None
+
+        return replay
+
+    _simple(reg, f"{OT}:OrientedPoint.relativePosition", op_setup(), post_relpos, replay_rel("relativePosition"))
+    _simple(reg, f"{OT}:OrientedPoint.relativize", op_setup(), post_relativize, replay_rel("relativize"))
+
+    def post_distance_past(I, env, res, chk):
+        G.use(I.eng, "trig")
+        o = env.vars["self"]
+        h = rz(o.fields["heading"])
+        d = [a - b for a, b in zip(co(o.fields["position"]), co(env.vars["vec"]))]
+        # component of (position - vec) along the heading direction (-sin h, cos h)
+        chk("is_the_progress_along_the_heading_direction", rz(res) == -SIN(h) * d[0] + COS(h) * d[1])
+
+    def replay_distance_past(inputs, clause):
+        from scenic.core.vectors import Vector
+
+        for P, v, h in ((_f3(inputs, "self.position", [4, 5, 6]), _f3(inputs, "vec", [1, 2, 3]), float(inputs.get("self.heading", 0.6))), ([4.0, 5.0, 6.0], [1.0, 2.0, 3.0], 0.6)):
+            op = _real_oriented_point(P, (h, 0, 0))
+            r = op.distancePast(Vector(*v))
+            want = -math.sin(h) * (P[0] - v[0]) + math.cos(h) * (P[1] - v[1])
+            if not _close(r, want):
+                return f"oriented point at {P} heading {h}: distancePast({v}) = {r}, expected {want}"
+        return None
+
+    _simple(reg, f"{OT}:OrientedPoint.distancePast", op_setup(with_heading=True), post_distance_past, replay_distance_past)
+
+    # ---------------------------------------------------------------- planar angle helpers of scenic.core.geometry
+    def planar_setup(names):
+        def setup(I, env):
+            for n in names:
+                if n == "heading":
+                    env.vars[n] = input_real(I.eng, n)
+                else:
+                    v = input_vector(I.eng, n, I)
+                    env.vars[n] = tuple(v.fields["coordinates"])  # these helpers take plain coordinate sequences
+                    env.vars["_" + n] = v
+
+        return setup
+
+    def post_heading_of_segment(I, env, res, chk):
+        G.use(I.eng, "atan2")
+        a, b = co(env.vars["_pointA"]), co(env.vars["_pointB"])
+        azimuth_checks(chk, rz(res), [y - x for x, y in zip(a, b)])
+
+    def replay_hos(inputs, clause):
+        from scenic.core.geometry import headingOfSegment
+
+        for a, b in ((_f3(inputs, "pointA", [0, 0, 0]), _f3(inputs, "pointB", [1, 1, 0])), ([0.0, 0.0, 0.0], [-1.0, 0.0, 0.0]), ([1.0, 1.0, 0.0], [1.0, 5.0, 0.0])):
+            if _close(a[0], b[0]) and _close(a[1], b[1]):
+                continue
+            r = headingOfSegment(a, b)
+            want = math.atan2(b[1] - a[1], b[0] - a[0]) - math.pi / 2
+            if not (-math.pi <= r <= math.pi) or not _angle_close(r, want):
+                return f"headingOfSegment({a}, {b}) = {r}, expected {want} (mod tau)"
+        return None
+
+    _simple(reg, f"{GEO}:headingOfSegment", planar_setup(["pointA", "pointB"]), post_heading_of_segment, replay_hos)
+
+    def post_view_angle(I, env, res, chk):
+        G.use(I.eng, "atan2")
+        p, b, h, r = co(env.vars["_point"]), co(env.vars["_base"]), rz(env.vars["heading"]), rz(res)
+        az = ATAN2(p[1] - b[1], p[0] - b[0]) - HALF_PI
+        chk("in_range", z3.And(-PI <= r, r <= PI))
+        chk("is_the_azimuth_of_the_point_relative_to_the_heading", is_turns(r - (az - h)))
+        chk("point_straight_ahead_is_zero", z3.Implies(z3.And(h == 0, p[0] == b[0], p[1] > b[1]), r == 0))
+        chk("point_to_the_left_is_positive", z3.Implies(z3.And(h == 0, p[0] < b[0], p[1] == b[1]), r == HALF_PI))
+
+    def replay_view_angle(inputs, clause):
+        from scenic.core.geometry import viewAngleToPoint
+
+        for p, b, h in ((_f3(inputs, "point", [0, 1, 0]), _f3(inputs, "base", [0, 0, 0]), float(inputs.get("heading", 0.0))), ([-1.0, 0.0, 0.0], [0.0, 0.0, 0.0], 0.0), ([3.0, 4.0, 0.0], [1.0, 1.0, 0.0], 2.0)):
+            if _close(p[0], b[0]) and _close(p[1], b[1]):
+                continue
+            r = viewAngleToPoint(p, b, h)
+            want = math.atan2(p[1] - b[1], p[0] - b[0]) - math.pi / 2 - h
+            if not (-math.pi <= r <= math.pi) or not _angle_close(r, want):
+                return f"viewAngleToPoint({p}, {b}, {h}) = {r}, expected {want} (mod tau)"
+        return None
+
+    _simple(reg, f"{GEO}:viewAngleToPoint", planar_setup(["point", "base", "heading"]), post_view_angle, replay_view_angle)
+
+    def post_apparent_heading_at(I, env, res, chk):
+        G.use(I.eng, "atan2")
+        p, b, h, r = co(env.vars["_point"]), co(env.vars["_base"]), rz(env.vars["heading"]), rz(res)
+        az = ATAN2(p[1] - b[1], p[0] - b[0]) - HALF_PI
+        chk("in_range", z3.And(-PI <= r, r <= PI))
+        chk("is_the_heading_relative_to_the_line_of_sight_from_base", is_turns(r - (h - az)))
+
+    def replay_apparent_heading_at(inputs, clause):
+        from scenic.core.geometry import apparentHeadingAtPoint
+
+        for p, b, h in ((_f3(inputs, "point", [0, 1, 0]), _f3(inputs, "base", [0, 0, 0]), float(inputs.get("heading", 0.0))), ([3.0, 4.0, 0.0], [1.0, 1.0, 0.0], 2.0)):
+            if _close(p[0], b[0]) and _close(p[1], b[1]):
+                continue
+            r = apparentHeadingAtPoint(p, h, b)
+            want = h - (math.atan2(p[1] - b[1], p[0] - b[0]) - math.pi / 2)
+            if not (-math.pi <= r <= math.pi) or not _angle_close(r, want):
+                return f"apparentHeadingAtPoint({p}, {h}, {b}) = {r}, expected {want} (mod tau)"
+        return None
+
+    _simple(reg, f"{GEO}:apparentHeadingAtPoint", planar_setup(["point", "heading", "base"]), post_apparent_heading_at, replay_apparent_heading_at)
+
+
+def register_orientation_algebra(reg):
+    install_veneer_stubs(reg)
+    OR = f"{V}:Orientation"
+
+    def two(I, env, names=("self", "other")):
+        for n in names:
+            t = OrientationT()
+            o = t.fresh(I.eng, n, I)
+            I.eng.input_syms.append((n, t, o))
+            env.vars[n] = o
+
+    def real_pairs():
+        from scenic.core.vectors import Orientation
+
+        for a in ROTATION_CATALOGUE:
+            for b in ROTATION_CATALOGUE[1:]:
+                yield Orientation.fromEuler(*a), Orientation.fromEuler(*b)
+
+    def post_mul(I, env, res, chk):
+        chk("is_the_composition_self_then_other_in_the_frame_of_self", is_orientation(res) and rot(res) == MUL(rot(env.vars["self"]), rot(env.vars["other"])))
+
+    def replay_mul(inputs, clause):
+        from scenic.core.vectors import Orientation
+
+        for a, b in real_pairs():
+            r = a * b
+            if not r.approxEq(Orientation(a.getRotation() * b.getRotation())):
+                return f"{a} * {b} = {r}"
+        return None
+
+    _simple(reg, f"{OR}.__mul__", lambda I, env: two(I, env), post_mul, replay_mul)
+
+    def post_mul_other(I, env, res, chk):
+        chk("only_orientations_compose", res is NotImplemented)
+
+    _simple(reg, f"{OR}.__mul__", lambda I, env: (two(I, env, ("self",)), env.vars.update(other=input_real(I.eng, "other"))), post_mul_other, lambda inputs, clause: None, key="[non-orientation]")
+
+    def post_inverse(I, env, res, chk):
+        R = rot(env.vars["self"])
+        chk("is_the_inverse_rotation", is_orientation(res) and rot(res) == INV(R))
+        chk("composes_to_the_identity", is_orientation(res) and z3.And(MUL(R, rot(res)) == IDENT, MUL(rot(res), R) == IDENT))
+
+    def replay_inverse(inputs, clause):
+        from scenic.core.vectors import Orientation
+
+        for a, _ in real_pairs():
+            if not (a * a.inverse).approxEq(Orientation.fromEuler(0, 0, 0)):
+                return f"{a} * inverse = {a * a.inverse}"
+        return None
+
+    _simple(reg, f"{OR}.inverse", lambda I, env: two(I, env, ("self",)), post_inverse, replay_inverse)
+
+    def post_euler(I, env, res, chk):
+        R = rot(env.vars["self"])
+        e = co(res)
+        chk("three_angles", len(e) == 3)
+        chk("from_euler_of_the_angles_is_the_orientation", EULER(*e) == R)
+
+    def replay_euler(inputs, clause):
+        from scenic.core.vectors import Orientation
+
+        for a, _ in real_pairs():
+            if not Orientation.fromEuler(*a.eulerAngles).approxEq(a):
+                return f"fromEuler(eulerAngles({a})) = {Orientation.fromEuler(*a.eulerAngles)}"
+        return None
+
+    _simple(reg, f"{OR}.eulerAngles", lambda I, env: two(I, env, ("self",)), post_euler, replay_euler)
+
+    def post_local_angles(I, env, res, chk):
+        e = co(res)
+        chk("self_composed_with_the_local_angles_is_the_given_orientation", MUL(rot(env.vars["self"]), EULER(*e)) == rot(env.vars["orientation"]))
+
+    def replay_local_angles(inputs, clause):
+        from scenic.core.vectors import Orientation
+
+        for a, b in real_pairs():
+            e = a.localAnglesFor(b)
+            if not (a * Orientation.fromEuler(*e)).approxEq(b):
+                return f"{a}.localAnglesFor({b}) = {e}: parent * fromEuler(angles) = {a * Orientation.fromEuler(*e)}"
+        return None
+
+    _simple(reg, f"{OR}.localAnglesFor", lambda I, env: two(I, env, ("self", "orientation")), post_local_angles, replay_local_angles)
+
+    def setup_g2l(I, env):
+        two(I, env, ("self",))
+        for n in ("yaw", "pitch", "roll"):
+            env.vars[n] = input_real(I.eng, n)
+
+    def post_g2l(I, env, res, chk):
+        e = co(res)
+        chk("self_composed_with_the_local_angles_is_the_global_orientation", MUL(rot(env.vars["self"]), EULER(*e)) == EULER(*[rz(env.vars[n]) for n in ("yaw", "pitch", "roll")]))
+
+    def replay_g2l(inputs, clause):
+        from scenic.core.vectors import Orientation
+
+        g = [float(inputs.get(n, d)) for n, d in (("yaw", 0.5), ("pitch", 0.2), ("roll", -0.4))]
+        for a, _ in real_pairs():
+            e = a.globalToLocalAngles(*g)
+            if not (a * Orientation.fromEuler(*e)).approxEq(Orientation.fromEuler(*g)):
+                return f"{a}.globalToLocalAngles{tuple(g)} = {e}"
+        return None
+
+    _simple(reg, f"{OR}.globalToLocalAngles", setup_g2l, post_g2l, replay_g2l)
+
+    # ---------------------------------------------------------------- coercions: a heading is a yaw about +Z
+    COERCE = ["heading", "orientation", "tuple", "vector", "orientedpoint"]
+
+    def setup_coerce(I, env):
+        eng = I.eng
+        k = COERCE[eng.choose(len(COERCE), "kind")]
+        if k == "heading":
+            h = input_real(eng, "thing")
+            thing, want = h, EULER(rz(h), 0, 0)
+        elif k == "orientation":
+            two(I, env, ("thing",))
+            thing = env.vars["thing"]
+            want = rot(thing)
+        elif k in ("tuple", "vector"):
+            v = input_vector(eng, "thing", I)
+            thing = v if k == "vector" else tuple(v.fields["coordinates"])
+            want = EULER(*co(v))
+        else:
+            thing = make_point(I, "thing", "OrientedPoint")
+            want = rot(thing.fields["orientation"])
+        env.vars.update(thing=thing, _want=want)
+        eng.input_syms.append(("case", C.Const(None), k))
+
+    def post_coerce(I, env, res, chk):
+        chk("heading_is_yaw_about_z_and_triples_are_yaw_pitch_roll", is_orientation(res) and rot(res) == env.vars["_want"])
+
+    def replay_coerce(inputs, clause):
+        from scenic.core.vectors import Orientation, Vector
+
+        k = inputs.get("case", "heading")
+        t = inputs.get("thing", 0.5)
+        if k == "heading":
+            r, want = Orientation._coerce(float(t)), Orientation.fromEuler(float(t), 0, 0)
+        elif k in ("tuple", "vector"):
+            e = [float(c) for c in t]
+            r, want = Orientation._coerce(tuple(e) if k == "tuple" else Vector(*e)), Orientation.fromEuler(*e)
+        else:
+            return None
+        if not r.approxEq(want):
+            return f"Orientation._coerce({t}) = {r}, expected {want}"
+        return None
+
+    _simple(reg, f"{OR}._coerce", setup_coerce, post_coerce, replay_coerce)
+
+    def setup_add(I, env):
+        two(I, env, ("self",))
+        env.vars["other"] = input_real(I.eng, "other")
+
+    def post_add(I, env, res, chk):
+        chk("adding_a_heading_turns_about_the_local_z_axis", is_orientation(res) and rot(res) == MUL(rot(env.vars["self"]), EULER(rz(env.vars["other"]), 0, 0)))
+
+    def post_radd(I, env, res, chk):
+        chk("heading_plus_orientation_applies_the_orientation_in_the_turned_frame", is_orientation(res) and rot(res) == MUL(EULER(rz(env.vars["other"]), 0, 0), rot(env.vars["self"])))
+
+    def replay_add(right):
+        def replay(inputs, clause):
+            from scenic.core.vectors import Orientation
+
+            h = float(inputs.get("other", 0.5)) or 0.5
+            for a, _ in real_pairs():
+                r = (h + a) if right else (a + h)
+                H = Orientation.fromEuler(h, 0, 0)
+                want = Orientation((H.getRotation() * a.getRotation()) if right else (a.getRotation() * H.getRotation()))
+                if not r.approxEq(want):
+                    return f"{'%r + %s' % (h, a) if right else '%s + %r' % (a, h)} = {r}, expected {want}"
+            return None
+
+        return replay
+
+    _simple(reg, f"{OR}.__add__", setup_add, post_add, replay_add(False))
+    _simple(reg, f"{OR}.__radd__", setup_add, post_radd, replay_add(True))
